@@ -151,7 +151,7 @@ def assumptions():
         "a session is two well-formed texts given to two Changelog objects one after the other in one process; the "
         "statement quantifies over texts, so each of them has to satisfy it whatever was parsed before",
         "sweep character sets: package and distribution names [-+.0-9a-zA-Z] (deb-changelog(5); upper case as in "
-        "UNRELEASED), versions [A-Za-z0-9.+~-] and the epoch colon as '1:2', urgency values and keys [-0-9a-zA-Z], change "
+        "UNRELEASED), versions [A-Za-z0-9.+~-] and the epoch colon as '1:2' (also '1:2:3', '1:2:3-4', '1-2-3': further colons after an epoch and all hyphens but the last belong to the upstream version), urgency values and keys [-0-9a-zA-Z], change "
         "text: printable ASCII U+0020..U+007E and 12 non-ASCII characters; other characters (control characters, line "
         "separators) are not well-formed changelog text and are not demanded",
     ]
@@ -359,6 +359,8 @@ def sweep_plan():
     return [
         ("package", ["a%sb"], name_chars),
         ("version", ["1%s2"], list(".+~-" + _DIGITS + _LOWER + _LOWER.upper()) + [":"]),
+        # the same character twice (a second hyphen or colon belongs to the upstream version), and after an epoch
+        ("version", ["1%s2%s3", "1:2%s3-4"], list(".+~-:")),
         ("distributions", ["a%sb", "unstable a%sb"], name_chars),
         ("urgency", ["a%sb"], word_chars),
         ("key", ["a%sb"], word_chars),
@@ -374,7 +376,7 @@ def sweep_cases(component):
             continue
         for c in chars:
             for t in tpls:
-                x = t % c
+                x = t.replace("%s", c)
                 b = list(base)
                 if name == "key":
                     b[5] = [[x, "yes"]]
@@ -637,7 +639,7 @@ def units(tier, seed):
             out += [("triple", i, (j, min(j + TRIPLE_GROUP, ntriples))) for j in range(0, ntriples, TRIPLE_GROUP)]
     if tier != "quick":
         out += [("quad", i, j) for i in range(POOL_SIZE) for j in range(POOL_SIZE)]
-    out += [("sweep", name) for name, _t, _c in sweep_plan()]
+    out += [("sweep", name) for name in dict.fromkeys(name for name, _t, _c in sweep_plan())]
     return out
 
 
